@@ -49,7 +49,7 @@ def setup():
 OPS = ['def_m1', 'def_m2', 'def_m_none', 'def_m_empty', 'def_mg', 'def_special4', 'def_ab3', 'use_p', 'use_q_list', 'use_r_ab', 'use_p_uneval',
        'file2_redefine', 'include_def_use', 'finalize', 'def_and_use_one_text', 'use_then_def_one_text',
        'def_gin_macro5', 'use_p_short_ref', 'use_r_uneval', 'def_m11_skip_unknown', 'def_ab_skip_list', 'def_a_prefix',
-       'use_r_dictkey', 'use_r_dictkey_uneval', 'query_m', 'query_ab_value']
+       'use_r_dictkey', 'use_r_dictkey_uneval', 'query_m', 'query_ab_value', 'file3_fails_midway', 'file3_repaired']
 TEXT = {
     'def_m1': 'm = 1', 'def_m2': 'm = 2', 'def_m_none': 'm = None', 'def_m_empty': "m = ''", 'def_mg': 'm = @c05.g()', 'def_special4': 'm/macro.value = 4',
     'def_gin_macro5': 'm/gin.macro.value = 5',
@@ -114,6 +114,11 @@ class World:
       self.macros['a/b'] = 12
     elif op == 'def_a_prefix':
       self.macros['a'] = 77      # macro `a` is NOT macro `a/b`: binding it must not make %a/b count as bound
+    elif op == 'file3_fails_midway':
+      self.macros['m'] = 40          # the statements before the faulty one have taken effect
+    elif op == 'file3_repaired':
+      self.macros['m'] = 41
+      self.macros['a/b'] = 42
     elif op == 'file2_redefine':
       self.macros['m'] = 20
     elif op == 'include_def_use':
@@ -159,6 +164,18 @@ class World:
           gin.query_parameter('%m' if op == 'query_m' else 'a/b/gin.macro.value')
         except ValueError:
           pass
+      elif op == 'file3_fails_midway':
+        # the very same file name: first in a state that fails part-way (through an include), later repaired
+        MEM['c05_f3.gin'] = "include 'c05_f3_inner.gin'\n"
+        MEM['c05_f3_inner.gin'] = "m = 40\nc05.c.p = 1 +\n"
+        try:
+          gin.parse_config_file('c05_f3.gin')
+        except SyntaxError:
+          pass
+      elif op == 'file3_repaired':
+        MEM['c05_f3.gin'] = "include 'c05_f3_inner.gin'\na/b = 42\n"
+        MEM['c05_f3_inner.gin'] = "m = 41\n"
+        gin.parse_config_file('c05_f3.gin')
       elif op == 'file2_redefine':
         gin.parse_config_file('c05_f2.gin')
       elif op == 'include_def_use':
